@@ -15,3 +15,15 @@ func VerifPartitionScalars(scalars []fr.Element, c uint64, scalarsMont bool, nbT
 func VerifMsmInner(p *PointProj, c int, points []PointAffine, scalars []fr.Element, splitFirstChunk bool) {
 	msmInnerPointProj(p, c, points, scalars, splitFirstChunk)
 }
+
+const verifOn = true
+
+// VerifMsmDecision, when set, receives the decisions MultiExp took for a call: total points, task count, the chosen
+// window size, the number of splits, the points per split, the number of small scalars and the first-chunk split flag.
+var VerifMsmDecision func(n, nbTasks, c, nbSplits, nbPoints, smallValues int, splitFirstChunk bool)
+
+func verifDecision(n, nbTasks, c, nbSplits, nbPoints, smallValues int, splitFirstChunk bool) {
+	if f := VerifMsmDecision; f != nil {
+		f(n, nbTasks, c, nbSplits, nbPoints, smallValues, splitFirstChunk)
+	}
+}
